@@ -91,6 +91,9 @@ fn main() {
             let count: u64 = args[5].parse().unwrap();
             driver::slow_main(def, &sub, start, count);
         }
+        "digest" => {
+            props::c14::digest_main(&args[2]);
+        }
         "expand" => {
             // debugging aid: print the chunk structure of expand_zlib_chunks(file)
             let raw = std::fs::read(&args[2]).unwrap();
